@@ -32,8 +32,31 @@ var c17Programs = []struct {
 	{"registers-minimal-sha256-before-library-init", nil, "the program registers its own SHA-256", "before"},
 }
 
+// The program's own SHA-256: correct, implements hash.Hash and nothing else (no marshalling, no io.ByteWriter...),
+// and uses every freedom the hash.Hash contract leaves: Sum returns a freshly allocated slice instead of appending
+// in place, Write consumes its input in two pieces.
 const c17Wrapper = `
-type onlyHash struct{ hash.Hash }
+type onlyHash struct{ h hash.Hash }
+
+func (o onlyHash) Write(p []byte) (int, error) {
+	k := len(p) / 2
+	o.h.Write(p[:k])
+	o.h.Write(p[k:])
+
+	return len(p), nil
+}
+
+func (o onlyHash) Sum(b []byte) []byte {
+	d := o.h.Sum(nil)
+	out := make([]byte, 0, len(b)+len(d))
+	out = append(out, b...)
+
+	return append(out, d...)
+}
+
+func (o onlyHash) Reset()         { o.h.Reset() }
+func (o onlyHash) Size() int      { return o.h.Size() }
+func (o onlyHash) BlockSize() int { return o.h.BlockSize() }
 
 func register() {
 	crypto.RegisterHash(crypto.SHA256, func() hash.Hash { return onlyHash{sha256.New()} })
